@@ -681,6 +681,13 @@ func main() {
 						cls = "property-count-of-map-value-not-checked"
 					}
 				}
+				if cls == "required" && genOK {
+					// the generated map validators skip values that are the zero value of their Go type: an empty object held
+					// by a map of objects is not validated, so a required property of the value schema is not demanded there
+					if okWithout, _ := refValid(c.Def, &root, dropEmptyObjectMapValues(defs[c.Def], defs, d, 0)); okWithout {
+						cls = "empty-object-map-value-not-validated"
+					}
+				}
 				if cls == "required" && !genOK {
 					if name := strings.TrimSuffix(results[i].Err, " in body is required"); name != results[i].Err && (emptyObjectMapValue(defs[c.Def], defs, d, name, 0) || emptyObjectMapValue(defs[c.Def], defs, er, name, 0)) {
 						cls = "empty-object-map-value-treated-as-missing"
@@ -863,6 +870,50 @@ func countViolations(s *gs.Schema, defs map[string]*gs.Schema, d interface{}, un
 }
 
 // emptyObjectMapValue: is [name] a key of a map (at any depth) whose value in the document is an empty object?
+// dropEmptyObjectMapValues: the document without the entries of maps of objects whose value is the empty object
+func dropEmptyObjectMapValues(s *gs.Schema, defs map[string]*gs.Schema, d interface{}, depth int) interface{} {
+	s = resolve(s, defs)
+	if s == nil || depth > 10 {
+		return d
+	}
+	switch s.Kind {
+	case gs.KMap:
+		if m, ok := d.(map[string]interface{}); ok {
+			out := map[string]interface{}{}
+			vs := resolve(s.Addl, defs)
+			for k, x := range m {
+				if e, isObj := x.(map[string]interface{}); isObj && len(e) == 0 && vs != nil && vs.Kind == gs.KObject {
+					continue
+				}
+				out[k] = dropEmptyObjectMapValues(s.Addl, defs, x, depth+1)
+			}
+			return out
+		}
+	case gs.KObject:
+		if m, ok := d.(map[string]interface{}); ok {
+			out := map[string]interface{}{}
+			for k, x := range m {
+				out[k] = x
+			}
+			for _, p := range s.Props {
+				if v, ok := out[p.Name]; ok {
+					out[p.Name] = dropEmptyObjectMapValues(p.Schema, defs, v, depth+1)
+				}
+			}
+			return out
+		}
+	case gs.KArray:
+		if xs, ok := d.([]interface{}); ok {
+			out := make([]interface{}, len(xs))
+			for i, x := range xs {
+				out[i] = dropEmptyObjectMapValues(s.Items, defs, x, depth+1)
+			}
+			return out
+		}
+	}
+	return d
+}
+
 func emptyObjectMapValue(s *gs.Schema, defs map[string]*gs.Schema, d interface{}, name string, depth int) bool {
 	s = resolve(s, defs)
 	if s == nil || depth > 10 {
